@@ -18,6 +18,7 @@ import (
 	"go.uber.org/zap"
 
 	"github.com/cosi-project/runtime/pkg/controller"
+	"github.com/cosi-project/runtime/pkg/controller/generic/cleanup"
 	"github.com/cosi-project/runtime/pkg/controller/generic/qtransform"
 	"github.com/cosi-project/runtime/pkg/controller/generic/transform"
 	"github.com/cosi-project/runtime/pkg/resource"
@@ -95,6 +96,7 @@ type Line struct {
 	Fin         bool   `json:"fin"`
 	IgnoreTd    bool   `json:"ignoreTd"`
 	IgnoreUntil bool   `json:"ignoreUntil"`
+	Cleanup     bool   `json:"cleanup"`
 	Ctrl        string `json:"ctrl"`
 	Kind        string `json:"kind"`
 	ID          int    `json:"id"`
@@ -208,6 +210,7 @@ type Config struct {
 	Fin         bool
 	IgnoreTd    bool
 	IgnoreUntil bool
+	Cleanup     bool
 	Concurrency uint
 }
 
@@ -218,6 +221,7 @@ var Configs = []Config{
 	{Name: "Q", Q: true, Fin: true, Concurrency: 1},
 	{Name: "Q", Q: true, Fin: true, Concurrency: 2},
 	{Name: "Q", Q: true, Fin: true, IgnoreUntil: true, Concurrency: 1},
+	{Name: "CL", Cleanup: true},
 }
 
 type gateT struct {
@@ -298,7 +302,7 @@ func runBehaviour(t *testing.T, tr *vh.Trace, tid string, cfg Config, beh []Cmd)
 			tr.Emit(l)
 		}
 
-		emit(Line{Ev: "reset", Fin: cfg.Fin, IgnoreTd: cfg.IgnoreTd, IgnoreUntil: cfg.IgnoreUntil, Ctrl: cfg.Name})
+		emit(Line{Ev: "reset", Fin: cfg.Fin, IgnoreTd: cfg.IgnoreTd, IgnoreUntil: cfg.IgnoreUntil, Cleanup: cfg.Cleanup, Ctrl: cfg.Name})
 
 		rec := &recorder{CoreState: namespaced.NewState(inmem.Build), emit: emit, last: map[string]Val{}}
 		st := state.WrapCore(rec)
@@ -319,7 +323,15 @@ func runBehaviour(t *testing.T, tr *vh.Trace, tid string, cfg Config, beh []Cmd)
 			return nil
 		}
 
-		if cfg.Q {
+		if cfg.Cleanup {
+			// dependents of input rN are the B resources labelled parent=rN (ids rN and r(N+10))
+			err = rtm.RegisterController(cleanup.NewController(cleanup.Settings[*A]{
+				Name: cfg.Name,
+				Handler: cleanup.HasNoOutputs[*B](func(in *A) state.ListOption {
+					return state.WithLabelQuery(resource.LabelEqual("parent", in.Metadata().ID()))
+				}),
+			}))
+		} else if cfg.Q {
 			opts := []qtransform.ControllerOption{qtransform.WithConcurrency(cfg.Concurrency)}
 			if cfg.IgnoreUntil {
 				opts = append(opts, qtransform.WithIgnoreTeardownUntil())
@@ -382,6 +394,35 @@ func runBehaviour(t *testing.T, tr *vh.Trace, tid string, cfg Config, beh []Cmd)
 				st.Teardown(ctx, aPtr(c.ID)) //nolint:errcheck
 			case "destroy":
 				st.Destroy(ctx, aPtr(c.ID)) //nolint:errcheck
+			case "addX", "addF", "remX", "remF":
+				if !cfg.Cleanup {
+					break
+				}
+
+				// cleanup mode: the external actor creates / destroys dependents (only while the parent is running)
+				dep := c.ID
+				if c.C == "addX" || c.C == "remX" {
+					dep = c.ID + 10
+				}
+
+				if c.C == "addX" || c.C == "addF" {
+					if cur, gerr := st.Get(ctx, aPtr(c.ID)); gerr == nil && cur.Metadata().Phase() == resource.PhaseRunning {
+						b := NewB(rid(dep), 1)
+						b.Metadata().Labels().Set("parent", rid(c.ID))
+						st.Create(ctx, b) //nolint:errcheck
+					}
+				} else {
+					st.Destroy(ctx, bPtr(dep)) //nolint:errcheck
+				}
+			}
+
+			if cfg.Cleanup {
+				synctest.Wait()
+
+				continue
+			}
+
+			switch c.C {
 			case "addX":
 				if cfg.IgnoreUntil {
 					st.AddFinalizer(ctx, aPtr(c.ID), "X") //nolint:errcheck
